@@ -26,7 +26,7 @@ pub struct Src<'a> {
 }
 
 impl<'a> Src<'a> {
-    fn new(data: &'a [u8], shared: bool) -> Src<'a> {
+    pub fn new(data: &'a [u8], shared: bool) -> Src<'a> {
         Src { data, own: 0, shared: if shared { Some(std::rc::Rc::new(std::cell::Cell::new(0))) } else { None } }
     }
     fn pos(&self) -> u64 {
@@ -199,10 +199,15 @@ impl<'a, 'b> Exec<'a, 'b> {
     }
 }
 
-/// Random history with clones.
+/// Random history with clones over the file of `b`.
 fn random_history(ctx: &Ctx, b: &Built, layout: &Layout, rng: &mut Rng, len: usize, states: &Mutex<HashSet<u64>>, hashes: &std::collections::HashMap<u64, (usize, usize)>) -> bool {
+    random_history_on(ctx, b, &b.bytes, layout, rng, len, states, hashes)
+}
+
+/// Random history with clones over `bytes` (same content as `b`, e.g. its V1 encoding).
+pub fn random_history_on(ctx: &Ctx, b: &Built, bytes: &[u8], layout: &Layout, rng: &mut Rng, len: usize, states: &Mutex<HashSet<u64>>, hashes: &std::collections::HashMap<u64, (usize, usize)>) -> bool {
     let shared = rng.chance(1, 3);
-    let Some(mut ex) = Exec::new(ctx, b, &b.entries, &b.bytes, layout, b.stream, shared) else { return false };
+    let Some(mut ex) = Exec::new(ctx, b, &b.entries, bytes, layout, b.stream, shared) else { return false };
     let mut gens: Vec<HistGen> = vec![HistGen::new(&b.entries, layout)];
     for _ in 0..len {
         if ex.failed {
